@@ -302,7 +302,7 @@ class Bits(object):
         if isinstance(i,int):
             assert v in (0,1)
             if   0<= i< self.__sz   : p=i
-            elif 0<=-i<(self.__sz+1): p=self.__sz+i
+            elif 0< -i<(self.__sz+1): p=self.__sz+i
             else: raise IndexError
             if v==0: self.ival &= (self.mask^((0x1)<<p))
             if v==1: self.ival |= (0x1)<<p
